@@ -43,29 +43,7 @@ size_t nondet_size_t(void);
 uintmax_t nondet_uintmax(void);
 
 /* ------------------------------------------------------------------ ghost state */
-unsigned g_http_ncb;
-int g_http_cb_null;
-int g_http_cb_status;
-size_t g_http_cb_nheaders;
-size_t g_http_cb_bodylen;
-uint8_t * g_http_cb_body;
-void * g_http_cb_cookie;
-int g_http_cb_rv;
-unsigned g_http_ncancel;
-unsigned g_http_ndie;
-int g_http_envfail;
-unsigned g_http_nclose;
-int g_http_closed_fd;
-unsigned g_http_nconncancel;
-unsigned g_http_nwaitcancel;
-unsigned g_http_nrfree, g_http_nwfree, g_http_nsslclose;
-unsigned g_http_nwrite;
-const uint8_t * g_http_wbuf[2];
-size_t g_http_wlen[2];
-int g_http_wait_fail;
-size_t g_http_i, g_http_j;
-size_t g_http_fe_i, g_http_fe_j;
-size_t g_http_eol;
+struct http_ghost g_http;
 
 /* allocation inside the environment: may fail independently of cbmc's --malloc-may-fail */
 static void *
